@@ -1,3 +1,4 @@
+import Model.Mutex
 /-! C13, schedules: a small-step protocol model of `log/tracelog` in BUFFERED mode (`BufferDepth > 0`), written after
 `tracelog.go` as it is:
 
@@ -222,3 +223,48 @@ def outcomes (cfg : Config) (x0 : XState) (script : List Tok) : List (List (Nat 
   dedup ((script.foldl (applyTok cfg) (close cfg [x0])).map fun x => (finalWrites x.s).map fun it => (it.pid, it.idx))
 
 end TraceProto
+
+/-! ## Synchronous mode (`BufferDepth = 0`) as an instance of the generic mutex-bracket machine (`Model/Mutex.lean`)
+
+```go
+    ... format the record into a fresh local buffer ...     // before the lock; reads and writes nothing shared
+    h.lock.Lock()
+    defer h.lock.Unlock()
+    _, err := h.sink.Write(buffer.Bytes())
+    return err
+```
+
+An operation is the bracketed part of one `Handle` call: "write this line" (the line is a function of the record and
+the handler alone, so it is fixed before the lock is taken).  The sink is NOT assumed atomic: `Write` puts the bytes
+into the sink's stream ONE BYTE PER MICRO-STEP, then returns the error the sink has scripted for this call (`errAt k`
+for the `k`-th `Write` the sink completes).  The root handler and everything derived from it share `h.lock`, so all
+goroutines logging through one family are threads of one machine. -/
+namespace TraceSync
+
+abbrev Bytes := List Nat
+
+/-- the sink: the byte stream it has received and the number of `Write` calls it has completed -/
+structure Sink where
+  out : Bytes := []
+  calls : Nat := 0
+deriving BEq, DecidableEq, Repr
+
+/-- inside `Write`: the bytes not yet handed over; `result` is set when the call returns (`true` = an error) -/
+structure K where
+  rest : Bytes
+  result : Option Bool := none
+deriving BEq, DecidableEq, Repr
+
+def sys (errAt : Nat → Bool) : Mutex.Sys Sink Bytes K Bool where
+  start := fun line => { rest := line }
+  micro := fun k s =>
+    match k.rest with
+    | b :: bs => ({ rest := bs }, { s with out := s.out ++ [b] })
+    | [] => ({ rest := [], result := some (errAt s.calls) }, { s with calls := s.calls + 1 })
+  done := fun k => k.result
+
+/-- sequential reference: the whole line at once, then the scripted error of this call -/
+def write (errAt : Nat → Bool) (line : Bytes) (s : Sink) : Bool × Sink :=
+  (errAt s.calls, { out := s.out ++ line, calls := s.calls + 1 })
+
+end TraceSync
